@@ -901,6 +901,14 @@ func (q *checker) bcheckVar(n *a.Var) error {
 	if _, err := q.bcheckTypeExpr(n.XType()); err != nil {
 		return err
 	}
+	// Local variables are zero-initialised: that includes every element of a
+	// (nested) array, whose own bounds are the placeholder [0 ..= 0].
+	if in := n.XType().Innermost(); (in != n.XType()) && in.IsNumType() {
+		if ib := in.AsNode().MBounds(); (ib[0] != nil) && ((zero.Cmp(ib[0]) < 0) || (zero.Cmp(ib[1]) > 0)) {
+			return fmt.Errorf("check: default zero value is not within bounds %v for var %q",
+				ib, n.Name().Str(q.tm))
+		}
+	}
 
 	lhs := a.NewExpr(0, 0, n.Name(), nil, nil, nil, nil)
 	lhs.SetMType(n.XType())
